@@ -40,9 +40,23 @@ LEVEL_TEXT = ("Lean 4 theorems: (1) any two answers that satisfy the least-squar
               "C++ by pairwise differential runs of the real solvers and of gama-local/gama-g3 across the four "
               "algorithms, and by a correspondence run of the decision model against the real null_space/GeneralParameters "
               "driven by a scripted solver.")
-LEVEL_NOTE = ("The per-solver premises (IsLSSolution, refusal iff not resolving) are the C01/C02_refusal theorems of the "
-              "solver models; where one of them is still _partial (envelope singular case, cholesky singular case, svd "
-              "certificate) the cross-algorithm equality for that pair rests on the differential runs. 'Tolerance "
+LEVEL_NOTE = ("The per-solver premises are now FULL theorems of the solver models, none of them _partial: IsLSSolution for "
+              "env (regular and singular, envCore and envSolve with its own homogenisation and RCM ordering), cholesky "
+              "(regular and singular), gso, svd (for the factors Svd.decompose returns; no certificate: Props/C02SvdDecompose.lean); "
+              "pair theorems gso=chol, gso=env, gso=envSolve, gso=svd for x, v, v'Pv, defect and q_xx(i,j) for ALL index pairs, "
+              "with joint witnesses (one problem meeting both sides' hypotheses: Props/C02Joint.lean, C02JointEnvSolve.lean, "
+              "C02SvdDecompose.lean with the svd factors computed by the model's own iteration over R), and through both "
+              "facades for correlated weights and any two algorithms (C02_same_adj, C02_same_net); refusal iff the subset does "
+              "not resolve the defect for gso (C02_refusal_gso), cholesky (C02_refusal_chol), envelope (C02_refusal_env, "
+              "C02_refusal_envsolve) and svd (C02_refusal_svd, C02_refusal_svdsolve; pair C02_refusal_gso_chol, "
+              "C02_refusal_gso_svd) - each under its algorithm's second-stage premise (the S-norm its Gram-Schmidt / "
+              "min_subset_x loop tests is exactly 0 or above the threshold; for svd stated as one exact hypothesis on (A,S,tol)); "
+              "the decision layer's worlds are derived from the solver models (Props/C02Agree.lean, C02AgreeEnv.lean). "
+              "Hypotheses that stay: each algorithm's own 'rank numerically unambiguous' reading on its trace (from an exact "
+              "gap of A'PA: Props/C01/Gap.lean, Gap2.lean), Resolves A S, convergence of the svd QR iteration (= Svd.decompose "
+              "returns), IEEE rounding. That the absolute sqrt(eps) pivot tolerance of the envelope / cholesky kernels "
+              "does not scale with the weights is known finding F22 (C09-F2, C10-TINY, C19-envelope-defect-undercount elsewhere): "
+              "there the algorithms legitimately differ on the real code. 'Tolerance "
               "proportional to conditioning' is tested (1e-8 x scale on generator-bounded conditioning), not proved.")
 TECHNIQUE = "Lean 4 proof (uniqueness of the regularised least-squares solution; structural induction on the removal recursion) + differential runs"
 TRUSTED = ["scripted solver in harness/c02_netdecision.cpp replaces LocalNetwork::least_squares (test double, real LocalNetwork code)",
